@@ -5,12 +5,15 @@
 (* DISPATCH 703 c07_spec_holds *)
 (* DISPATCH 704 c07_spec_rows *)
 (* DISPATCH 705 c07_model_asfound *)
+(* DISPATCH 706 c07_groups_hold *)
 From Coq Require Import List ZArith NArith Bool.
 From MV Require Import Common.Sx C07.Inflector C07.Model C07.Spec.
 Import ListNotations.
 
-(* The revision of the repository the correspondence is run against: the repaired one. *)
-Definition repo_fixed : bool := true.
+(* The revision of the repository the correspondence is run against: tag naming repaired (fix: commit),
+   sample-group namespace of flattened children as found (known finding). *)
+Definition repo_fixed_tag : bool := true.
+Definition repo_fixed_sg : bool := false.
 
 Definition dec_style (x : sx) : style :=
   match sx_z x with 1%Z => Pascal | 2%Z => Snake | 3%Z => Kebab | _ => Preserve end.
@@ -127,12 +130,12 @@ Definition enc_sitem (it : sitem) : sx :=
   end.
 
 (* ---- 702: the mechanism model: what RootEntry::write / sample_group do with the recording writer ---- *)
-Definition run_model (fixed : bool) (x : sx) : sx :=
+Definition run_model (ftag fsg : bool) (x : sx) : sx :=
   let d := dec_case x in
-  L [L (map enc_item (root_write to_pascal_case to_snake_case to_kebab_case fixed d));
-     L (map enc_group (root_sg to_pascal_case to_snake_case to_kebab_case fixed d))].
-Definition c07_model (x : sx) : sx := run_model repo_fixed x.
-Definition c07_model_asfound (x : sx) : sx := run_model false x.
+  L [L (map enc_item (root_write to_pascal_case to_snake_case to_kebab_case ftag d));
+     L (map enc_group (root_sg to_pascal_case to_snake_case to_kebab_case ftag fsg d))].
+Definition c07_model (x : sx) : sx := run_model repo_fixed_tag repo_fixed_sg x.
+Definition c07_model_asfound (x : sx) : sx := run_model false false x.
 
 (* ---- 703: the property predicate on (case, implementation output): 1, or else what was expected ---- *)
 Definition vcall_eqb (a b : vcall) : bool :=
@@ -161,14 +164,22 @@ Definition group_eqb (a b : bytes * bytes) : bool := bytes_eqb (fst a) (fst b) &
 
 Definition spec_of (d : edef) : list sitem * list (bytes * bytes) :=
   (spec_items to_pascal_case to_snake_case to_kebab_case d, spec_groups to_pascal_case to_snake_case to_kebab_case d).
+(* written items: names, values, units *)
 Definition c07_spec_holds (x : sx) : sx :=
   let d := dec_case (sx_nth x 0) in
   let imp := sx_nth x 1 in
   let items := observe (map dec_item (sx_list (sx_nth imp 0))) in
+  let sp := spec_of d in
+  if list_eqb sitem_eqb items (fst sp) then A 1%Z
+  else L (map enc_sitem (fst sp)).
+(* 706: sample-group pairs *)
+Definition c07_groups_hold (x : sx) : sx :=
+  let d := dec_case (sx_nth x 0) in
+  let imp := sx_nth x 1 in
   let groups := map dec_group (sx_list (sx_nth imp 1)) in
   let sp := spec_of d in
-  if list_eqb sitem_eqb items (fst sp) && list_eqb group_eqb groups (snd sp) then A 1%Z
-  else L [L (map enc_sitem (fst sp)); L (map enc_group (snd sp))].
+  if list_eqb group_eqb groups (snd sp) then A 1%Z
+  else L (map enc_group (snd sp)).
 (* 704 (diagnostic): the specification's items and groups for a case *)
 Definition c07_spec_rows (x : sx) : sx :=
   let sp := spec_of (dec_case x) in L [L (map enc_sitem (fst sp)); L (map enc_group (snd sp))].
